@@ -40,7 +40,7 @@ m = {
            "baseline_off_cmd": "cd /repo && go test -vet=off -count=1 ./...", "source_commits": [], "add_only": True},
  "engines": [{"name": "gosym", "path": "/verif/engine", "serves_properties": sorted(claimed), "kind_free_text": "own symbolic executor for go/ssa (path forking by re-execution, if-conversion of pure regions, SMT-LIB2 over pipes to z3/cvc5, native replay)"}],
  "checks": checks,
- "notes": "Quick tier measured on 16 cores: 8 s (C19) to 556 s (C01), 61 min for all 19 in sequence; thorough tier demonstrated to exit 0 for C02, C04, C05, C07, C19 only (see DESIGN.md 0.1), the other thorough commands are deeper bounds of the same harnesses that were not run to completion in the building sessions. Seeded defects used to test the checks (50, from independent sub-agents) are under /verif/seeded/<property>-m<k>/ (patch.diff, demo_test.go, notes.md, meta.json); DESIGN.md section 10 says which check catches which. Exit codes of every check: 0 held within bounds; 1 VIOLATION (replay-confirmed); 2 INCONCLUSIVE (unknown/timeout, unsupported construct, unwind budget, vacuous reach tag); 3 ENGINE-DISAGREEMENT (model not reproducible natively or solvers disagree).",
+ "notes": "Quick tier measured on 16 cores: 8 s (C19) to 556 s (C01), 61 min for all 19 in sequence; thorough tier demonstrated to exit 0 for C02, C04, C05, C07, C13, C19 only (see DESIGN.md 0.1), the other thorough commands are deeper bounds of the same harnesses that were not run to completion in the building sessions. Seeded defects used to test the checks (50, from independent sub-agents) are under /verif/seeded/<property>-m<k>/ (patch.diff, demo_test.go, notes.md, meta.json); DESIGN.md section 10 says which check catches which. Exit codes of every check: 0 held within bounds; 1 VIOLATION (replay-confirmed); 2 INCONCLUSIVE (unknown/timeout, unsupported construct, unwind budget, vacuous reach tag); 3 ENGINE-DISAGREEMENT (model not reproducible natively or solvers disagree).",
  "not_applicable": [{"property_id": p, "reason": na.get(p, "check under construction in this session; not yet registered")} for p in props if p not in claimed],
 }
 json.dump(m, open('/verif/MANIFEST.json', 'w'), indent=1)
